@@ -126,6 +126,16 @@ def fixed_families():
             pk[MOD + "/a"]["config"].pop("recursive")
         files[".mockery.yml"] = json.dumps(cfg, indent=1)
         fams.append({"kind": "family", "i": -1 - len(fams), "files": files, "placement": tag})
+    # several packages share the top-level include-interface-regex and differ in their own exclude-interface-regex (one has none): the set of
+    # files written must be the same in every run, whichever package is looked at first
+    files = {}
+    pk = {}
+    for k, exc in enumerate(["Two$", None, "One$", "^Svc", "Helper"]):
+        files["s%d/a.go" % k] = "package s%d\n\ntype SvcOne interface{ A() }\n\ntype SvcTwo interface{ B(x int) }\n\ntype SvcHelper interface{ H() }\n" % k
+        pk[MOD + "/s%d" % k] = {"config": ({"exclude-interface-regex": exc} if exc else {})}
+    cfg = {"force-file-write": True, "include-interface-regex": "^Svc", "filename": "mock_{{.InterfaceName}}_test.go", "packages": pk}
+    files[".mockery.yml"] = json.dumps(cfg, indent=1)
+    fams.append({"kind": "family", "i": -1 - len(fams), "files": files, "placement": "shared-include-different-excludes"})
     # a template-data key overridden at a more specific level next to keys that only the less specific level sets: the merge must
     # carry all of them whatever order the keys are visited in
     for tag, tmpl, keys in (("template-data-override-next-to-inherited-keys-testify", "testify", {"unroll-variadic": True}),
